@@ -310,6 +310,8 @@ pub fn check_fresh(f: &FreshCase, info: &mut CaseInfo) -> Result<(), String> {
 	if derived_spki != spki {
 		return Err("the exported private key does not belong to the exported public key".into());
 	}
+	// the generated key itself (before any save/load): algorithm as asked, signatures verify
+	check_identity(&original, &spki, &raw, fam, Some(galg)).map_err(|e| format!("freshly generated {gname} key: {e}"))?;
 	let der = if f.via_pem_export {
 		pemstrict::decode(&original.serialize_pem(), "PRIVATE KEY").map_err(|e| format!("serialize_pem: {e}"))?
 	} else {
